@@ -390,7 +390,8 @@ def marker_pairs(facts, fn, bind=None):
     out = []
     effs = [e for e in pe.effects if e.kind == 'call']
     for i, e in enumerate(effs):
-        if e.name == 'sink_.push_back' and e.args and isinstance(e.args[0], int) and not any(g.startswith('loop@') for g in e.guards):
+        one_byte_conv = e.name.split('::')[-1] in ('native_to_big', 'native_to_little') and (e.extra.get('ta') or ['?'])[0] in ('unsigned char', 'signed char', 'char')
+        if (e.name == 'sink_.push_back' or one_byte_conv) and e.args and isinstance(e.args[0], int) and not any(g.startswith('loop@') for g in e.guards):
             nxt = next((x for x in effs[i + 1:i + 4] if 'back_inserter' not in x.name), None)
             conv = None
             if nxt is not None and nxt.name.split('::')[-1] in ('native_to_big', 'native_to_little') and nxt.guards == e.guards:
@@ -424,6 +425,51 @@ def r06_scalars_msgpack(chk, facts, rows):
                     pass
                 if bad: chk.fail('R06.msgpack', site, fn['file'], bad[0], '%s: %s' % (name, bad[1]), None, fn['q'])
                 else: chk.ok('R06.msgpack', site, {'function': name, 'markers': ['0x%02x' % m[0] for m in mp]})
+
+def r06_scalars(chk, rid, facts, cls, classify, floats):
+    """null / bool / double markers of an encoder: classify(marker) -> ('null'|'bool'|'double'|..., value, payload type) from the specification."""
+    for name, binds, want in (('visit_null', [{}], [('null', None)]), ('visit_bool', [{'val': 1, 'value': 1}, {'val': 0, 'value': 0}], [('bool', True), ('bool', False)]),
+                              ('visit_double', [{}], [('double', None)])):
+        fns = [f for f in U.functions(facts, cls=cls, name=name) if f.get('body') is not None]
+        chk.require(fns, '%s::%s not found' % (cls, name))
+        for fn in U.one_per_inst(fns)[:1]:
+            chk.analysed(fn)
+            for b, (ev, val) in zip(binds, want):
+                mp = marker_pairs(facts, fn, b)
+                if name == 'visit_null': mp = [m for m in mp if classify(m[0])[0] in ('null', 'undefined')] or mp
+                if name == 'visit_bool': mp = [m for m in mp if not m[2]][:1]
+                if name == 'visit_double': mp = [m for m in mp if m[1] is not None and m[1][1] in ('float', 'double', 'unsigned short')] or mp
+                site = U.site(fn, 'marker %s' % ('%s' % val if val is not None else 'value'))
+                if not mp:
+                    chk.fail(rid, site, fn['file'], fn['l'], '%s writes no constant marker byte' % name, None, fn['q']); continue
+                bad = None
+                for m, conv, gs, line in mp:
+                    got, gval, ptype = classify(m)
+                    if name == 'visit_null' and got == 'undefined' and any('undefined' in g for g in gs): continue
+                    if got != ev: bad = (line, 'marker 0x%02x denotes %s, expected %s' % (m, got, ev)); break
+                    if val is not None and gval is not val: bad = (line, 'marker 0x%02x encodes %s, the value is %s' % (m, gval, val)); break
+                    if ev == 'double':
+                        if conv is None or conv[0] != 'native_to_big': bad = (line, 'marker 0x%02x is not followed by a big-endian payload' % m); break
+                        if conv[1] != ptype: bad = (line, 'marker 0x%02x announces a %s payload but a %s is written' % (m, ptype, conv[1])); break
+                if bad: chk.fail(rid, site, fn['file'], bad[0], '%s::%s: %s' % (cls, name, bad[1]), None, fn['q'])
+                else: chk.ok(rid, site, {'function': name, 'markers': ['0x%02x' % m[0] for m in mp]})
+
+def cbor_classify(m):
+    if m >> 5 != 7: return ('major %d' % (m >> 5), None, None)
+    info = m & 0x1f
+    return {20: ('bool', False, None), 21: ('bool', True, None), 22: ('null', None, None), 23: ('undefined', None, None),
+            25: ('double', None, 'unsigned short'), 26: ('double', None, 'float'), 27: ('double', None, 'double')}.get(info, ('simple/reserved %d' % info, None, None))
+
+def ubjson_classify_factory(markers):
+    def f(m):
+        r = markers.get(chr(m))
+        if not r: return ('undefined marker', None, None)
+        ev = r['event']
+        if ev == 'null': return ('null', None, None)
+        if ev.startswith('bool'): return ('bool', ev.endswith('true'), None)
+        if ev == 'double': return ('double', None, r['read_type'])
+        return (ev, None, None)
+    return f
 
 def run(chk, tier, only_rule=None):
     chk.explanation = EXPLANATION
@@ -473,6 +519,7 @@ def ladders(chk, tier):
         check_ladder(chk, 'R06.cbor', facts, fn, 'value', 0, U64, lambda v, o: cbor_decode(v, o, 0), follow=fol)
     for fn in one('basic_cbor_encoder', 'write_int64_value'):
         check_ladder(chk, 'R06.cbor', facts, fn, 'value', I64MIN, I64MAX, lambda v, o: cbor_decode(v, o, 0 if v >= 0 else 1), follow=fol)
+    r06_scalars(chk, 'R06.cbor', facts, 'basic_cbor_encoder', cbor_classify, None)
     # ---- UBJSON
     chk.rule('R06.ubjson', 'UBJSON encoder ladders: visit_int64 / visit_uint64 write the smallest fitting integer marker with a big-endian '
                            'payload of that type, for every value (an unrepresentable value must store an error)', floor=20)
@@ -483,4 +530,5 @@ def ladders(chk, tier):
         check_ladder(chk, 'R06.ubjson', facts, fn, 'length', 0, U64, lambda v, o: ubjson_decode(v, o))
     for fn in one('basic_ubjson_encoder', 'visit_uint64'):
         check_ladder(chk, 'R06.ubjson', facts, fn, 'val', 0, U64, lambda v, o: ubjson_decode(v, o), {'tag': tag_none})
+    r06_scalars(chk, 'R06.ubjson', facts, 'basic_ubjson_encoder', ubjson_classify_factory(c07.spec('ubjson.json')['markers']), None)
     r06_bson(chk, tier)
